@@ -60,6 +60,7 @@ class Report(object):
     MAX_VIOL = 6        # candidates kept per report
     MAX_SAMPLES = 4
     OUTCOME_CAP = 2000000
+    MERGE_CAP = 40
 
     def __init__(self):
         self.evaluations = 0
@@ -135,9 +136,9 @@ class Report(object):
                 self.samples.append(s)
         self.nviolations += o.nviolations
         self.violations.extend(o.violations)
-        if len(self.violations) > 40:
+        if len(self.violations) > self.MERGE_CAP:
             self.violations.sort(key=lambda v: len(json.dumps(v['case'])))
-            del self.violations[40:]
+            del self.violations[self.MERGE_CAP:]
         for fid, (n, ex) in o.known.items():
             if fid in self.known:
                 self.known[fid][0] += n
